@@ -1,4 +1,8 @@
 import RsslVerif.Lemmas.Layout
+import RsslVerif.Lemmas.LayoutCollect
+import RsslVerif.Lemmas.LayoutFull
+import RsslVerif.Lemmas.LayoutFields
+import RsslVerif.Gen.LayoutSites
 /-!
 # C19 — layout-consistency validation is sound
 
@@ -114,6 +118,314 @@ theorem check_total (t : Ty) (hw : wf t = true) (hh : size .hlsl t ≤ u32Max)
     the same layout -/
 theorem vector_free_agree (t : Ty) (hv : vectorFree t = true) : Agree t :=
   ⟨(vectorFree_same t hv).2.1, (vectorFree_same t hv).2.2⟩
+
+/-! ## The same statements in the property's own words (flattened field offsets) -/
+
+/-- `Agree` is exactly what the property demands: the same total size and the same absolute byte offset of every
+    field, recursively (every array element listed). -/
+theorem agree_iff_same_size_and_offsets (t : Ty) (hw : wf t = true) :
+    Agree t ↔ (size .hlsl t = size .metal t ∧ fieldsAt .hlsl t 0 = fieldsAt .metal t 0) :=
+  RsslVerif.Lemmas.LayoutFields.agree_iff_fields t hw
+
+/-- a rejection is never spurious: the blamed type differs in total size or in the offset of some field -/
+theorem rejected_really_differs (t : Ty) (lh lm : Layout) (hw : wf t = true)
+    (hh : size .hlsl t ≤ u32Max) (hm : size .metal t ≤ u32Max)
+    (h : checkAll [t] = .mismatch 0 lh lm) :
+    ¬ (size .hlsl t = size .metal t ∧ fieldsAt .hlsl t 0 = fieldsAt .metal t 0) :=
+  fun hf => rejected_differs t lh lm hw hh hm h ((agree_iff_same_size_and_offsets t hw).2 hf)
+
+/-- no false rejection: types with the same total size and the same offset of every field are accepted -/
+theorem check_complete_fields (ts : List Ty)
+    (h : ∀ t ∈ ts, wf t = true ∧ size .hlsl t ≤ u32Max ∧ size .metal t ≤ u32Max ∧
+      size .hlsl t = size .metal t ∧ fieldsAt .hlsl t 0 = fieldsAt .metal t 0) :
+    checkAll ts = .ok :=
+  check_complete ts fun t ht =>
+    ⟨(h t ht).1, (h t ht).2.1, (h t ht).2.2.1, (agree_iff_same_size_and_offsets t (h t ht).1).2 (h t ht).2.2.2⟩
+
+/-! ## Which uses of a type are validated (the collection loops of `check_layout`) -/
+section collection
+open RsslVerif.Gen.LayoutSites RsslVerif.Model.LayoutCollect RsslVerif.Lemmas.LayoutCollect
+
+/-- "structured buffer", in the property's words -/
+def propertyObjects : List String := ["StructuredBuffer", "RWStructuredBuffer"]
+/-- "raw buffer / buffer address" -/
+def rawBufferObjects : List String := ["ByteAddressBuffer", "RWByteAddressBuffer", "BufferAddress", "RWBufferAddress"]
+
+/-- **Inventory of use sites.**  Taken from the type checker's own tables (`ObjectType`, `parse_object_type`,
+    the method tables of `get_methods`), not from `layout_checker.rs`: every object type whose element may be a
+    structure is a structured buffer (and then matched by `check_layout`) or one of the two kinds the property
+    does not name; every object method templated on a type `T` is a load / store of a raw buffer or buffer
+    address and its intrinsic is matched by `check_layout`; nothing else is matched; the loops look below
+    modifiers, de-duplicate by type id and take the single type argument. -/
+theorem collection_sites_covered :
+    (∀ o ∈ structElementObjects, o ∈ propertyObjects ∨ o ∈ ["ConstantBuffer", "TriangleStream"]) ∧
+    (∀ o ∈ propertyObjects, o ∈ checkedObjects ∧ (o, true) ∈ objectTypes ∧ o ∈ structElementObjects) ∧
+    (∀ t ∈ typedMethods, t.1 ∈ rawBufferObjects ∧ t.2.2.1 ∈ checkedIntrinsics) ∧
+    (∀ o ∈ rawBufferObjects, (o, false) ∈ objectTypes ∧ ∃ t ∈ typedMethods, t.1 = o) ∧
+    (∀ i ∈ checkedIntrinsics, ∃ t ∈ typedMethods, t.2.2.1 = i) ∧
+    (∀ o ∈ checkedObjects, o ∈ propertyObjects) ∧
+    globalLoopStripsModifier = true ∧ dedupByTypeId = true ∧ fnLoopOneTypeArgument = true := by
+  decide
+
+/-- **When validation runs and what it prints.**  `compile` calls `check_layout` exactly when
+    `validate_layout_consistency` is set, between type checking and anything that depends on the target or on
+    the pipeline mode; a mismatch prints the HLSL layout first and the Metal layout second, size before
+    alignment (this is how the harness reads the message back). -/
+theorem diagnostic_pinned :
+    validationGuard = "args.validate_layout_consistency" ∧ validationBeforeTargetSelection = true ∧
+    unknownMessage = "struct has unknown size" ∧
+    mismatchMessage = "struct has size={} align={} on HLSL but size={} align={} on Metal" ∧
+    mismatchArgs = ["lhs.size", "lhs.align", "rhs.size", "rhs.align"] ∧
+    fnLocationIsStructDefinition = true := by
+  decide
+
+/-- a use of the type `r` that the property names: the element type of a global (RW)StructuredBuffer (below any
+    modifiers), or the type argument of an instantiated typed load / store of a raw buffer or buffer address -/
+inductive PropertyUse (m : Module) (r : TyRef) : Prop
+  | buffer (g : Global) (hg : g ∈ m.globals) (k : String) (hk : k ∈ propertyObjects)
+      (h : removeModifier g.ty = .object k (some r))
+  | access (f : Fn) (hf : f ∈ m.fns) (t : String × String × String × Nat) (ht : t ∈ typedMethods)
+      (hi : f.intrinsic = some t.2.2.1) (ha : f.template = some [.type r])
+
+/-- the type reference is matched by one of the two loops -/
+def Matched (m : Module) (r : TyRef) : Prop :=
+  (∃ g ∈ m.globals, GlobalHit g r) ∨ (∃ f ∈ m.fns, FnHit f r)
+
+/-- a type id denotes one type (the type registry interns types) -/
+def Consistent (m : Module) : Prop :=
+  ∀ r r', Matched m r → Matched m r' → r.id = r'.id → r.ty = r'.ty
+
+theorem propertyUse_matched (m : Module) (r : TyRef) (h : PropertyUse m r) : Matched m r := by
+  cases h with
+  | buffer g hg k hk h =>
+    refine Or.inl ⟨g, hg, k, h, ?_⟩
+    have := (collection_sites_covered.2.1 k hk).1
+    simpa using this
+  | access f hf t ht hi ha =>
+    refine Or.inr ⟨f, hf, t.2.2.1, hi, ?_, ha⟩
+    have := (collection_sites_covered.2.2.1 t ht).2
+    simpa using this
+
+/-- **Every use the property names is collected**: its type id is among `types_to_check`. -/
+theorem property_uses_collected (m : Module) (l : List Entry) (h : collect m = .ok l) (r : TyRef)
+    (hu : PropertyUse m r) : ∃ e ∈ l, e.ref.id = r.id := by
+  rcases propertyUse_matched m r hu with ⟨g, hg, hh⟩ | ⟨f, hf, hh⟩
+  · exact collect_global m l h g hg r hh
+  · exact collect_fn m l h f hf r hh
+
+/-- **Soundness of `check_layout` as a whole.**  If it accepts a module, every structure used as the element
+    type of a structured buffer or of a typed raw-buffer / buffer-address load or store has the same total size
+    and the same byte offset of every field, recursively, under both reference calculators. -/
+theorem check_layout_sound (m : Module) (hc : Consistent m) (h : checkLayout m = .ok) (r : TyRef)
+    (hu : PropertyUse m r) (hw : wf r.ty = true) :
+    ∃ rh rm, hlslSB r.ty = some rh ∧ metal r.ty = some rm ∧ rh.size = rm.size ∧ rh.fields = rm.fields := by
+  unfold checkLayout at h
+  split at h
+  · rename_i l hl
+    obtain ⟨e, he, hid⟩ := property_uses_collected m l hl r hu
+    have hm : Matched m e.ref := collect_origin m l hl e he
+    have hty : e.ref.ty = r.ty := hc e.ref r hm (propertyUse_matched m r hu) hid
+    exact check_sound _ h r.ty (by rw [← hty]; exact List.mem_map.2 ⟨e, he, rfl⟩) hw
+  · cases h
+  · cases h
+
+/-- **Reported sizes, module level**: a rejection blames a collected type, i.e. one the loops matched, and
+    the sizes and alignments in the message are the reference ones. -/
+theorem check_layout_reports_true_sizes (m : Module) (i : Nat) (lh lm : Layout)
+    (h : checkLayout m = .mismatch i lh lm) :
+    ∃ r, Matched m r ∧ (wf r.ty = true →
+      hlslSB r.ty = some ⟨lh.size, lh.align, fieldsAt .hlsl r.ty 0⟩ ∧
+      metal r.ty = some ⟨lm.size, lm.align, fieldsAt .metal r.ty 0⟩) := by
+  unfold checkLayout at h
+  split at h
+  · rename_i l hl
+    obtain ⟨t, ht, hs⟩ := reported_sizes_true _ i lh lm h
+    rw [List.getElem?_map] at ht
+    cases hq : l[i]? with
+    | none => rw [hq] at ht; cases ht
+    | some e =>
+      rw [hq] at ht
+      simp only [Option.map_some, Option.some.injEq] at ht
+      refine ⟨e.ref, collect_origin m l hl e (List.mem_of_getElem? hq), fun hw => ?_⟩
+      rw [ht]
+      have := hs (by rw [← ht]; exact hw)
+      exact ⟨this.2.2.1, this.2.2.2⟩
+  · cases h
+  · cases h
+
+private def sF : Ty := .struct (Tys.ofList [.scalar .Float32, .vec .Float32 2])
+private def sG : Ty := .struct (Tys.ofList [.scalar .Float32, .scalar .Float32])
+
+/-- **The collection is incomplete (negation witness).**  A global that is an *array* of structured buffers
+    is not looked at: the module is accepted although its element structure is 12 bytes under HLSL packing and
+    16 under Metal.  (Replayed on the real compiler by `C19.prog vk:np:0 {f f2} sbarr@0`; known finding
+    `accepted/site-sbarr`.) -/
+theorem buffer_arrays_not_validated :
+    checkLayout ⟨[⟨.array (.object "StructuredBuffer" (some ⟨0, sF⟩)), "g"⟩], []⟩ = .ok ∧
+    wf sF = true ∧ ¬ Agree sF := by
+  decide
+
+/-- non-vacuity: the same structure behind a plain structured buffer, behind modifiers, or as the argument of a
+    typed store is rejected with the true sizes; an agreeing structure at every site is accepted; the first
+    collected failure is the one reported (globals before functions), a type id is looked at once -/
+example :
+    checkLayout ⟨[⟨.object "StructuredBuffer" (some ⟨0, sF⟩), "g"⟩], []⟩ = .mismatch 0 ⟨12, 4⟩ ⟨16, 8⟩ ∧
+    checkLayout ⟨[⟨.modifier (.object "RWStructuredBuffer" (some ⟨0, sF⟩)), "g"⟩], []⟩ = .mismatch 0 ⟨12, 4⟩ ⟨16, 8⟩ ∧
+    checkLayout ⟨[], [⟨some "RWBufferAddressStore", some [.type ⟨0, sF⟩]⟩]⟩ = .mismatch 0 ⟨12, 4⟩ ⟨16, 8⟩ ∧
+    checkLayout ⟨[⟨.object "StructuredBuffer" (some ⟨1, sG⟩), "g"⟩, ⟨.object "ConstantBuffer" (some ⟨0, sF⟩), "c"⟩],
+      [⟨some "ByteAddressBufferLoadT", some [.type ⟨1, sG⟩]⟩, ⟨some "ByteAddressBufferLoad", none⟩]⟩ = .ok ∧
+    checkLayout ⟨[⟨.object "StructuredBuffer" (some ⟨1, sG⟩), "g"⟩],
+      [⟨some "ByteAddressBufferLoadT", some [.type ⟨1, sG⟩]⟩, ⟨some "BufferAddressLoad", some [.type ⟨0, sF⟩]⟩]⟩
+        = .mismatch 1 ⟨12, 4⟩ ⟨16, 8⟩ := by
+  decide
+
+/-- non-vacuity of `check_layout_sound`: an accepted module with consistent type ids and a use the property names -/
+example :
+    Consistent ⟨[⟨.object "StructuredBuffer" (some ⟨1, sG⟩), "g"⟩], [⟨some "ByteAddressBufferLoadT", some [.type ⟨1, sG⟩]⟩]⟩ ∧
+    checkLayout ⟨[⟨.object "StructuredBuffer" (some ⟨1, sG⟩), "g"⟩], [⟨some "ByteAddressBufferLoadT", some [.type ⟨1, sG⟩]⟩]⟩ = .ok ∧
+    PropertyUse ⟨[⟨.object "StructuredBuffer" (some ⟨1, sG⟩), "g"⟩], [⟨some "ByteAddressBufferLoadT", some [.type ⟨1, sG⟩]⟩]⟩ ⟨1, sG⟩ ∧
+    wf sG = true := by
+  refine ⟨?_, by decide, ?_, by decide⟩
+  · have key : ∀ x : TyRef, Matched ⟨[⟨.object "StructuredBuffer" (some ⟨1, sG⟩), "g"⟩],
+        [⟨some "ByteAddressBufferLoadT", some [.type ⟨1, sG⟩]⟩]⟩ x → x = ⟨1, sG⟩ := by
+      intro x hx
+      rcases hx with ⟨g, hg, k, hk, _⟩ | ⟨f, hf, i, _, _, ht⟩
+      · simp only [List.mem_singleton] at hg
+        subst hg
+        simp only [removeModifier, GTy.object.injEq, Option.some.injEq] at hk
+        exact hk.2.symm
+      · simp only [List.mem_singleton] at hf
+        subst hf
+        simp only [Option.some.injEq, List.cons.injEq, TArg.type.injEq, and_true] at ht
+        exact ht.symm
+    intro r r' h h' _
+    rw [key r h, key r' h']
+  · exact .buffer _ (List.mem_singleton.2 rfl) "StructuredBuffer" (by decide) rfl
+
+end collection
+
+/-! ## The full type universe: `bool`, matrices (all scalars, 1–4 rows and columns, `row_major` /
+    `column_major`), next to everything of the grid, nested to any depth -/
+section full
+open RsslVerif.Spec.LayoutFull RsslVerif.Lemmas.LayoutFull
+
+/-- **Soundness over the full universe.**  If `check_layout` accepts, every listed type for which both rule
+    sets define a layout (`xwf`: also `bool`, `boolN`, `half`/`float` matrices) has the same total size and the
+    same byte offset of every field, recursively, under the full reference calculators. -/
+theorem check_sound_full (ts : List XTy) (h : checkAll (ts.map erase) = .ok) (t : XTy) (ht : t ∈ ts)
+    (hw : xwf t = true) :
+    ∃ rh rm, xhlslSB t = some rh ∧ xmetal t = some rm ∧ rh.size = rm.size ∧ rh.fields = rm.fields := by
+  have hc := checkFrom_ok (ts.map erase) 0 h (erase t) (List.mem_map_of_mem ht)
+  cases hp : plain t with
+  | false => exact absurd hc (checkOne_opaque t hp _)
+  | true =>
+    obtain ⟨w, hs, hf, _⟩ := coincide t hp hw
+    have ha : Agree (erase t) := (checkOne_spec w hc).1 rfl
+    refine ⟨⟨xsize .hlsl t, xalign .hlsl t, xfieldsAt .hlsl t 0⟩, ⟨xsize .metal t, xalign .metal t, xfieldsAt .metal t 0⟩,
+      by simp only [xhlslSB, xref, hw, if_true], by simp only [xmetal, xref, hw, if_true], ?_, ?_⟩
+    · show xsize .hlsl t = xsize .metal t
+      rw [(hs .hlsl).1, (hs .metal).1]; exact ha.1
+    · show xfieldsAt .hlsl t 0 = xfieldsAt .metal t 0
+      rw [hf .hlsl 0, hf .metal 0]; exact agree_fields _ ha.2 0
+
+/-- **Reported sizes over the full universe.** -/
+theorem reported_sizes_true_full (ts : List XTy) (i : Nat) (lh lm : Layout)
+    (h : checkAll (ts.map erase) = .mismatch i lh lm) :
+    ∃ t, ts[i]? = some t ∧ (xwf t = true →
+      xhlslSB t = some ⟨lh.size, lh.align, xfieldsAt .hlsl t 0⟩ ∧
+      xmetal t = some ⟨lm.size, lm.align, xfieldsAt .metal t 0⟩) := by
+  obtain ⟨u, hu, _, hc⟩ := checkFrom_mismatch (ts.map erase) 0 i lh lm h
+  have hu' : (ts.map erase)[i]? = some u := by simpa using hu
+  rw [List.getElem?_map] at hu'
+  cases hq : ts[i]? with
+  | none => rw [hq] at hu'; cases hu'
+  | some t =>
+    rw [hq] at hu'
+    simp only [Option.map_some, Option.some.injEq] at hu'
+    subst hu'
+    refine ⟨t, rfl, fun hw => ?_⟩
+    cases hp : plain t with
+    | false => exact absurd hc (checkOne_opaque t hp _)
+    | true =>
+      obtain ⟨w, hs, hf, _⟩ := coincide t hp hw
+      obtain ⟨e1, e2⟩ := (checkOne_spec w hc).2 lh lm rfl
+      subst e1; subst e2
+      refine ⟨?_, ?_⟩
+      · simp only [xhlslSB, xref, hw, if_true, (hs .hlsl).1, (hs .hlsl).2]
+      · simp only [xmetal, xref, hw, if_true, (hs .metal).1, (hs .metal).2]
+
+/-- **What `get_type_layout` cannot handle is never silently accepted**: a type that mentions a `bool` or a
+    matrix anywhere is neither accepted nor reported with sizes (the verdict is "unknown size", or a panic of an
+    earlier member). -/
+theorem no_layout_no_verdict (t : XTy) (hp : plain t = false) :
+    checkAll [erase t] ≠ .ok ∧ ∀ i lh lm, checkAll [erase t] ≠ .mismatch i lh lm := by
+  have hn := checkOne_opaque t hp
+  constructor
+  · intro h
+    exact hn _ (checkFrom_ok [erase t] 0 h (erase t) (List.mem_singleton.2 rfl))
+  · intro i lh lm h
+    obtain ⟨u, hu, _, hc⟩ := checkFrom_mismatch [erase t] 0 i lh lm h
+    have : u = erase t := by
+      cases i with
+      | zero => simpa using hu.symm
+      | succ k => simp at hu
+    subst this
+    exact hn _ hc
+
+/-- **Completeness, partial.**  Types without `bool` and matrices that have the same total size and the same
+    byte offset of every field under both rule sets (sizes ≤ u32::MAX) are all accepted.
+    *Missing for the full statement:* a type that mentions a `bool` or a matrix is rejected ("unknown size") even
+    when its two layouts agree — `complete_fails_beyond_plain` gives `{float4x4}` and `{bool; int}`. -/
+theorem check_complete_partial (ts : List XTy)
+    (h : ∀ t ∈ ts, xwf t = true ∧ plain t = true ∧ xsize .hlsl t ≤ u32Max ∧ xsize .metal t ≤ u32Max ∧
+      xsize .hlsl t = xsize .metal t ∧ xfieldsAt .hlsl t 0 = xfieldsAt .metal t 0) :
+    checkAll (ts.map erase) = .ok := by
+  apply check_complete_fields
+  intro u hu
+  obtain ⟨t, ht, rfl⟩ := List.mem_map.1 hu
+  obtain ⟨hw, hp, hh, hm, hs, hf⟩ := h t ht
+  obtain ⟨w, hsz, hfl, _⟩ := coincide t hp hw
+  refine ⟨w, by rw [← (hsz .hlsl).1]; exact hh, by rw [← (hsz .metal).1]; exact hm, ?_, ?_⟩
+  · rw [← (hsz .hlsl).1, ← (hsz .metal).1]; exact hs
+  · rw [← hfl .hlsl 0, ← hfl .metal 0]; exact hf
+
+private def xf : XTy := .scalar .Float32
+private def XS (l : List XTy) : XTy := .struct (XTys.ofList l)
+
+/-- the full completeness statement is false: these two have identical layouts under both rule sets and are
+    rejected with "unknown size" -/
+theorem complete_fails_beyond_plain :
+    (xwf (XS [.mat .Float32 4 4 .none]) = true ∧
+      xsize .hlsl (XS [.mat .Float32 4 4 .none]) = xsize .metal (XS [.mat .Float32 4 4 .none]) ∧
+      xfieldsAt .hlsl (XS [.mat .Float32 4 4 .none]) 0 = xfieldsAt .metal (XS [.mat .Float32 4 4 .none]) 0 ∧
+      checkAll [erase (XS [.mat .Float32 4 4 .none])] = .unknown 0) ∧
+    (xwf (XS [.scalar .Bool, .scalar .Int32]) = true ∧
+      xsize .hlsl (XS [.scalar .Bool, .scalar .Int32]) = xsize .metal (XS [.scalar .Bool, .scalar .Int32]) ∧
+      xfieldsAt .hlsl (XS [.scalar .Bool, .scalar .Int32]) 0 = xfieldsAt .metal (XS [.scalar .Bool, .scalar .Int32]) 0 ∧
+      checkAll [erase (XS [.scalar .Bool, .scalar .Int32])] = .unknown 0) := by
+  decide
+
+/-- **Empty structs (negation witness).**  `struct E {}; struct S { E e; float a; }` is accepted, but the
+    member `a` is at offset 0 (size 4) under HLSL packing and at offset 4 (size 8) in Metal, where an empty struct
+    occupies one byte.  (Replayed on the real compiler by `C19.prog vk:np:0 {{} f} sb@0`; known finding
+    `accepted/empty-struct`.)  This is why `xwf` excludes empty structs. -/
+theorem empty_struct_unsound :
+    checkAll [erase (XS [XS [], xf])] = .ok ∧
+    xsize .hlsl (XS [XS [], xf]) = 4 ∧ xsize .metal (XS [XS [], xf]) = 8 ∧
+    xfieldsAt .hlsl (XS [XS [], xf]) 0 = [0, 0] ∧ xfieldsAt .metal (XS [XS [], xf]) 0 = [0, 4] := by
+  decide
+
+/-- non-vacuity: types of the widened universe that satisfy `xwf`; a `bool`/matrix-free one among them is
+    accepted, the others get "unknown size"; a depth-5 nest is handled -/
+example :
+    xwf (XS [.vec .Bool 3, .mat .Float16 3 2 .row, .arr (.arr (.arr xf 2) 3) 4, .enum .UInt32]) = true ∧
+    checkAll [erase (XS [.vec .Bool 3, xf])] = .unknown 0 ∧
+    checkAll [erase (XS [xf, .mat .Float64 2 2 .column])] = .unknown 0 ∧
+    checkAll [erase (XS [.arr (.arr (.arr xf 2) 3) 4, .vec .Float32 2])] = .ok ∧
+    checkAll [erase (XS [XS [XS [XS [XS [.vec .Float32 2, xf]], xf]], xf])] = .mismatch 0 ⟨20, 4⟩ ⟨32, 8⟩ := by
+  decide
+
+end full
 
 /-! ### non-vacuity and regression examples -/
 private def f : Ty := .scalar .Float32
